@@ -6,6 +6,7 @@ package main
 
 import (
 	"fmt"
+	"runtime"
 	"runtime/debug"
 	"strings"
 
@@ -16,6 +17,11 @@ import (
 )
 
 const feFile = "f.hms"
+
+// feTuneRuntime: the driver runs one worker process per CPU; the front-end checks are
+// single-threaded and allocation-heavy, so each worker keeps its garbage collector from
+// competing with the other fifteen.
+func feTuneRuntime() { runtime.GOMAXPROCS(2) }
 
 // feAlphabet: every operator character, both quotes, backslash, `_ $ @ # ~ ?`, digits 0 1 9,
 // letters a f x u U n, the four whitespace characters, a 2-byte rune, a 4-byte rune, NUL and
